@@ -1,7 +1,8 @@
 import Driver.Common
 import Driver.Murmur
 import QlibcModel.ListTbl.Model
-open Qlibc Qlibc.ListTbl
+import QlibcModel.ListTbl.Fault
+open Qlibc Qlibc.ListTbl Qlibc.MapFault
 
 namespace Driver.ListTbl
 
@@ -11,6 +12,8 @@ structure St where
   cur : Cursor
   live : Bool
   fresh : Bool
+  ts : Bool := false                     -- the table was created with QLISTTBL_THREADSAFE
+  armed : Option (Nat × Bool) := none    -- `fault k` / `faultfrom k`: applies to the next library call
 
 def hash32 (s : String) : Option UInt32 :=
   match Hex.decode s with
@@ -24,9 +27,9 @@ def showObj (name : Bytes) (hash : UInt32) (data : Bytes) : String := s!"{hx nam
 
 def b01 (b : Bool) : String := if b then "1" else "0"
 
-def dump (t : Tbl) : String :=
+def dump (ts : Bool) (t : Tbl) : String :=
   let o := t.opts
-  s!" | {b01 o.unique}{b01 o.caseInsens}{b01 o.insertTop}{b01 o.lookupFwd} {t.num} [" ++
+  s!" | {b01 o.unique}{b01 o.caseInsens}{b01 o.insertTop}{b01 o.lookupFwd} {t.num} live={Qlibc.ListTbl.live ts t} [" ++
     ",".intercalate (t.nodes.map fun n => showObj n.name n.hash n.data) ++ "]"
 
 def showCur (c : Cursor) : String := "true " ++ showObj c.name c.hash c.data
@@ -44,59 +47,86 @@ def key? (ws : List String) : Option (Option (Bytes × UInt32)) :=
     | _, _ => none
   | _ => none
 
-def step (st : St) (ws : List String) : St × String :=
+def planOf (a : Option (Nat × Bool)) : Plan :=
+  match a with
+  | none => noFail
+  | some (k, false) => single k
+  | some (k, true) => fromOn k
+
+/-- length of the `# <path> <time>` comment line of a saved file: anything below 1024 (one
+    `DYNAMIC_VSPRINTF` buffer); the harness' path has at most 63 bytes -/
+def hdrLen : Nat := 100
+
+def step (st0 : St) (ws : List String) : St × String :=
+  let plan := planOf st0.armed
+  let st := { st0 with armed := none }        -- an armed failure lasts for one operation
   let t := st.t
-  let fin (st' : St) (out : String) : St × String := (st', out ++ dump st'.t)
-  let putRes (r : Except Fault (Bool × Tbl)) : St × String :=
+  let fin (st' : St) (out : String) : St × String := (st', out ++ dump st'.ts st'.t)
+  let putRes (r : Except Fault (PutOut × Tbl × Nat)) : St × String :=
     match r with
-    | .ok (ok, t') => fin { st with t := t', fresh := false, live := st.live && !t.opts.unique }
-                          (if ok then "true" else "false EINVAL")
+    | .ok (o, t', a) => fin { st with t := t', fresh := false, live := st.live && !t.opts.unique }
+                          (s!"allocs={a} " ++ match o with | .ok => "true" | .einval => "false EINVAL" | .enomem => "false ENOMEM")
     | .error f => fin st (faultStr f)
+  let getRes (pre : String) (r : GetOut × Nat) (f : Bytes → String) : St × String :=
+    match r with
+    | (.data d, a) => fin st s!"allocs={a} {pre}{f d}"
+    | (.enoent, a) => fin st s!"allocs={a} null ENOENT"
+    | (.enomem, a) => fin st s!"allocs={a} null ENOMEM"
   match ws with
-  | ["new", u, c, tp, f] => fin { t := init (mkOpts u c tp f), cur := Cursor.zero, live := true, fresh := false } "ok"
+  | ["fault", k] => fin { st0 with armed := some (k.toNat!, false) } "ok"
+  | ["faultfrom", k] => fin { st0 with armed := some (k.toNat!, true) } "ok"
+  | "new" :: u :: c :: tp :: f :: opt =>
+    let ts := opt == ["1"]
+    let o := mkOpts u c tp f
+    match initF plan o ts with
+    | (some t', a, _) => fin { t := t', cur := Cursor.zero, live := true, fresh := false, ts := ts } s!"allocs={a} ok"
+    | (none, a, l) => fin { t := init o, cur := Cursor.zero, live := true, fresh := false, ts := false } s!"allocs={a} null ENOMEM ctorlive={l}"
   | ["put", k, h, d] => match arg k, hash32 h, arg d with
-    | .ok k, some h, .ok d => putRes (put t k h d)
+    | .ok k, some h, .ok d => putRes (putF plan t k h d)
     | _, _, _ => fin st "bad-op"
   | ["putstr", k, h, d] => match arg k, hash32 h, arg d with
-    | .ok k, some h, .ok d => putRes (putstr t k h d)
+    | .ok k, some h, .ok d => putRes (putstrF plan t k h d)
+    | _, _, _ => fin st "bad-op"
+  | ["putstrf", k, h, d] => match arg k, hash32 h, arg d with
+    | .ok k, some h, .ok d => putRes (putstrfF plan t k h d)
     | _, _, _ => fin st "bad-op"
   | ["putint", k, h, n] => match arg k, hash32 h, n.toInt? with
-    | .ok k, some h, some n => putRes (putint t k h n)
+    | .ok k, some h, some n => putRes (putintF plan t k h n)
     | _, _, _ => fin st "bad-op"
-  | ["get", k, h, _] => match arg k, hash32 h with
-    | .ok k, some h => match get t k h with
-      | some d => fin st s!"data {hx d} {d.length}"
-      | none => fin st "null ENOENT"
+  | ["get", k, h, nm] => match arg k, hash32 h with
+    | .ok k, some h => getRes "data " (getF plan t k h (nm == "1")) (fun d => s!"{hx d} {d.length}")
     | _, _ => fin st "bad-op"
   | ["getstr", k, h] => match arg k, hash32 h with
     | .ok k, some h => match get t k h with
-      | some d => if d.contains 0 then fin st s!"str {hx (d.takeWhile (· != 0))}" else fin st "nonul"
-      | none => fin st "null ENOENT"
+      | some d => if d.contains 0 then getRes "str " (getF plan t k h true) (fun d => hx (d.takeWhile (· != 0)))
+                  else fin st "nonul"
+      | none => fin st "allocs=0 null ENOENT"
     | _, _ => fin st "bad-op"
   | ["getint", k, h] => match arg k, hash32 h with
     | .ok k, some h =>
+      let go : St × String := match getintF plan t k h with
+        | (.ok (some n), a) => fin st s!"allocs={a} int {n}"
+        | (.ok none, a) => fin st s!"allocs={a} int 0 ENOMEM"
+        | (.error f, _) => fin st (faultStr f)
       match get t k h with
-      | some d => if d.contains 0 then
-          match getint t k h with
-          | .ok n => fin st s!"int {n}"
-          | .error f => fin st (faultStr f)
-        else fin st "nonul"
-      | none => fin st "int 0"
+      | some d => if d.contains 0 then go else fin st "nonul"
+      | none => go
     | _, _ => fin st "bad-op"
-  | ["getmulti", k, h, _] => match arg k, hash32 h with
-    | .ok k, some h => match getmulti t k h with
-      | .ok [] => fin st "null ENOENT 0"
-      | .ok ds => fin st (s!"multi {ds.length}" ++ String.join (ds.map fun d => " " ++ hx d))
+  | ["getmulti", k, h, mode] => match arg k, hash32 h with
+    | .ok k, some h => match getmultiF plan t k h (mode != "0") with
+      | .ok (some [], a) => fin st s!"allocs={a} null ENOENT 0"
+      | .ok (some ds, a) => fin st (s!"allocs={a} multi {ds.length}" ++ String.join (ds.map fun d => " " ++ hx d))
+      | .ok (none, a) => fin st s!"allocs={a} null ENOMEM 0"
       | .error f => fin st (faultStr f)
     | _, _ => fin st "bad-op"
   | ["rm", k, h] => match arg k, hash32 h with
     | .ok k, some h => match remove t k h with
-      | .ok (n, t') => fin { st with t := t', fresh := false, live := false } s!"removed {n}"
+      | .ok (n, t') => fin { st with t := t', fresh := false, live := false } s!"allocs=0 removed {n}"
       | .error f => fin st (faultStr f)
     | _, _ => fin st "bad-op"
   | ["size"] => fin st s!"size {size t}"
   | ["sort"] => match sort t with
-    | .ok t' => fin { st with t := t', fresh := false } "ok"
+    | .ok t' => fin { st with t := t', fresh := false } "allocs=0 ok"
     | .error f => fin st (faultStr f)
   | ["clear"] => fin { st with t := clear t, fresh := false, live := false } "ok"
   | ["reset"] => fin { st with cur := Cursor.zero, live := true, fresh := false } "ok"
@@ -105,9 +135,10 @@ def step (st : St) (ws : List String) : St × String :=
     | none => fin st "bad-op"
     | some key =>
       if !st.live then fin st "skip" else
-      match getnext t st.cur key with
-      | .ok (some c) => fin { st with cur := c, fresh := true } (showCur c)
-      | .ok none => fin { st with fresh := false } "false ENOENT"
+      match getnextF plan 0 t st.cur key (rest.getLast? == some "1") with
+      | .ok (.item c, a) => fin { st with cur := c, fresh := true } (s!"allocs={a} " ++ showCur c)
+      | .ok (.done, a) => fin { st with fresh := false } s!"allocs={a} false ENOENT"
+      | .ok (.enomem c, a) => fin { st with cur := c, fresh := false } s!"allocs={a} false ENOMEM"
       | .error f => fin st (faultStr f)
   | ["rmobj"] =>
     if !st.fresh then fin st "skip" else
@@ -138,14 +169,16 @@ def step (st : St) (ws : List String) : St × String :=
   | ["save", sp, enc] => match arg sp with
     | .ok [s] =>
       if !flag enc && !(t.nodes.all fun n => n.data.contains 0) then fin st "nonul" else
-      match saveBody t s (flag enc) with
-      | .ok b => fin st s!"saved {hx b}"
+      match saveF plan t s (flag enc) hdrLen with
+      | .ok (some b, a) => fin st s!"allocs={a} saved {hx b}"
+      | .ok (none, a) => fin st s!"allocs={a} false ENOMEM"
       | .error f => fin st (faultStr f)
     | _ => fin st "bad-op"
   | ["load", file, sp, dec] => match arg file, arg sp with
     | .ok file, .ok [s] =>
-      match load Driver.Murmur.murmur3_32 t file s (flag dec) with
-      | .ok (n, t') => fin { st with t := t', fresh := false, live := st.live && !t.opts.unique } s!"loaded {n}"
+      match loadF plan Driver.Murmur.murmur3_32 t file s (flag dec) with
+      | .ok (some n, t', a) => fin { st with t := t', fresh := false, live := st.live && !t.opts.unique } s!"allocs={a} loaded {n}"
+      | .ok (none, t', a) => fin { st with t := t', fresh := false, live := st.live && !t.opts.unique } s!"allocs={a} loaded -1 ENOMEM"
       | .error f => fin st (faultStr f)
     | _, _ => fin st "bad-op"
   | ["rt", sp, u, c, tp, f] => match arg sp with
@@ -155,9 +188,10 @@ def step (st : St) (ws : List String) : St × String :=
         let t2 := init (mkOpts u c tp f)
         match load Driver.Murmur.murmur3_32 t2 file s true with
         | .ok (n, t') => fin { t := t', cur := Cursor.zero, live := true, fresh := false } s!"saved loaded {n}"
-        | .error f => fin { st with t := t2 } (faultStr f)
+        | .error f => fin { st with t := t2, ts := false } (faultStr f)
       | .error f => fin st (faultStr f)
     | _ => fin st "bad-op"
+  | ["end"] => fin { t := init (mkOpts "0" "0" "0" "0"), cur := Cursor.zero, live := true, fresh := false } "end live=0 bad=0"
   | _ => fin st "bad-op"
 
 def run : IO Unit :=
